@@ -21,6 +21,7 @@ def run(ctx, L, tier):
     terminal_clause(ctx, L)
     decode_writes(ctx, L)
     array_decoders(ctx, L)
+    P.f1_optional_encode(ctx, L)     # presence is decided by `is None` on both sides
     return sorted(set(o.rule for o in L.obligations))
 
 
